@@ -52,6 +52,8 @@ type Env interface {
 	NextBlock(dT time.Duration) *BlockPanic
 	// Mutate writes state directly (governance-style parameter change executed in the current block).
 	Mutate(fn func(ctx sdk.Context))
+	// DeliverMulti delivers one transaction carrying several messages: all of them take effect or none does
+	DeliverMulti(msgs []sdk.Msg) TxResult
 	// SetBlockGas sets the gas already consumed in the current block by other transactions
 	// (seam A: directly; seam B: ignored — real gas accumulates there).
 	SetBlockGas(g uint64)
@@ -129,6 +131,43 @@ func (e *EnvA) Deliver(msg sdk.Msg) (res TxResult) {
 		out.RespData = r.Data
 		out.Events = r.Events
 	}
+	return out
+}
+
+func (e *EnvA) DeliverMulti(msgs []sdk.Msg) (res TxResult) {
+	for _, msg := range msgs {
+		if err := msg.ValidateBasic(); err != nil {
+			return TxResult{Err: err, Stage: "validate", Code: 1}
+		}
+	}
+	txCtx, write := e.ctx.CacheContext()
+	txCtx = txCtx.WithEventManager(sdk.NewEventManager()).WithGasMeter(sdk.NewInfiniteGasMeter())
+	defer func() {
+		if r := recover(); r != nil {
+			res = TxResult{Err: fmt.Errorf("panic: %v", r), Panicked: true, Stage: "handler", Code: 111222, Log: string(debug.Stack())}
+		}
+	}()
+	out := TxResult{}
+	for i, msg := range msgs {
+		h := e.w.App.MsgServiceRouter().Handler(msg)
+		if h == nil {
+			return TxResult{Err: fmt.Errorf("no handler for %s", sdk.MsgTypeURL(msg)), Stage: "route", Code: 1}
+		}
+		// like baseapp.runMsgs: every message runs on a branch of the transaction's branch
+		mctx, mwrite := txCtx.CacheContext()
+		r, err := h(mctx, msg)
+		if err != nil {
+			return TxResult{Err: fmt.Errorf("message %d: %w", i, err), Stage: "handler", Code: 1}
+		}
+		mwrite()
+		if i == 0 && r != nil {
+			out.RespData = r.Data
+		}
+		if r != nil {
+			out.Events = append(out.Events, r.Events...)
+		}
+	}
+	write()
 	return out
 }
 
@@ -292,6 +331,33 @@ func (e *EnvB) Deliver(msg sdk.Msg) TxResult {
 		}
 	}
 	return e.DeliverSigned([]sdk.Msg{msg}, signers)
+}
+
+func (e *EnvB) DeliverMulti(msgs []sdk.Msg) TxResult {
+	var signers []Acct
+	for _, msg := range msgs {
+		if err := msg.ValidateBasic(); err != nil {
+			return TxResult{Err: err, Stage: "validate", Code: 1}
+		}
+		for _, s := range msg.GetSigners() {
+			found := false
+			for _, have := range signers {
+				if have.Addr.Equals(s) {
+					found = true
+				}
+			}
+			for _, n := range e.w.Order {
+				if !found && e.w.Accts[n].Addr.Equals(s) {
+					signers = append(signers, e.w.Accts[n])
+					found = true
+				}
+			}
+			if !found {
+				return TxResult{Err: fmt.Errorf("harness: no key for signer %s", s), Stage: "sign", Code: 1}
+			}
+		}
+	}
+	return e.DeliverSigned(msgs, signers)
 }
 
 // DeliverSigned delivers msgs signed by the given accounts (which may differ from GetSigners: C11).
